@@ -200,28 +200,22 @@ func main() {
 				continue
 			}
 			var sb strings.Builder
-			sb.WriteString(prelude)
 			sb.WriteString(decls[:o.declLen])
 			if o.extra != "" {
 				fmt.Fprintf(&sb, "(assert %s)\n", o.extra)
 			} else {
 				fmt.Fprintf(&sb, "(assert %s)\n(assert (not %s))\n", o.cur, o.goal)
 			}
-			o.SMT = sb.String()
+			o.SMT = withAxioms(prelude, sb.String())
 			if o.extra == "" && !o.Cover {
 				if parts := splitGoal(o.goal); len(parts) > 1 {
 					for _, pg := range parts {
 						sk, body := skolemize(pg)
-						o.Parts = append(o.Parts, prelude+decls[:o.declLen]+sk+fmt.Sprintf("(assert %s)\n(assert (not %s))\n", o.cur, body))
+						o.Parts = append(o.Parts, withAxioms(prelude, decls[:o.declLen]+sk+fmt.Sprintf("(assert %s)\n(assert (not %s))\n", o.cur, body)))
 					}
 				} else if len(parts) == 1 {
 					if sk, body := skolemize(parts[0]); sk != "" {
-						var sb2 strings.Builder
-						sb2.WriteString(prelude)
-						sb2.WriteString(decls[:o.declLen])
-						sb2.WriteString(sk)
-						fmt.Fprintf(&sb2, "(assert %s)\n(assert (not %s))\n", o.cur, body)
-						o.SMT = sb2.String()
+						o.SMT = withAxioms(prelude, decls[:o.declLen]+sk+fmt.Sprintf("(assert %s)\n(assert (not %s))\n", o.cur, body))
 					}
 				}
 			}
@@ -254,6 +248,7 @@ func main() {
 					fmt.Fprintf(&sb2, "(assert %s)\n(assert (not %s))\n", o.cur, o.goal)
 				}
 				o2 := *o
+				o2.Parts = nil
 				o2.Name = o.Name + "!carved"
 				o2.SMT = sb2.String()
 				o2.Clause = "under not(" + kf.CarveOut + "): " + o.Clause
@@ -582,9 +577,33 @@ func skolemize(g string) (decl string, body string) {
 		}
 		sk := "sk!" + strings.ReplaceAll(bn, "!", "_")
 		decl += fmt.Sprintf("(declare-const %s %s)\n", sk, srt)
-		body = strings.ReplaceAll(inner, bn, sk)
+		body = replaceToken(inner, bn, sk)
 	}
 	return decl, body
+}
+
+// replaceToken replaces whole-token occurrences of old (delimited by spaces or parentheses).
+func replaceToken(s, old, new string) string {
+	var sb strings.Builder
+	inBar := false
+	for i := 0; i < len(s); {
+		if s[i] == '|' {
+			inBar = !inBar
+		}
+		if !inBar && strings.HasPrefix(s[i:], old) {
+			prevOK := i == 0 || s[i-1] == ' ' || s[i-1] == '('
+			j := i + len(old)
+			nextOK := j >= len(s) || s[j] == ' ' || s[j] == ')'
+			if prevOK && nextOK {
+				sb.WriteString(new)
+				i = j
+				continue
+			}
+		}
+		sb.WriteByte(s[i])
+		i++
+	}
+	return sb.String()
 }
 
 // splitForall: (forall ((x S)) (! (=> rng (and A B)) pats)) -> two foralls (patterns recomputed).
